@@ -204,3 +204,92 @@ func c18Wiring(c *core.Ctx) {
 		{"Method", []string{`"HEAD"`}},
 	})
 }
+
+// ---------------------------------------------------------------------------
+// global options that property-relevant decisions read
+
+var globalWiring = []struct {
+	prop, field, from, why string
+}{
+	{"C18", "External.HasLua", "external-has-lua", "the Lua refusal of external authentication reads it"},
+	{"C18", "External.IsExternal", "options.IsExternal", "the Lua refusal of external authentication reads it"},
+	{"C03", "DrainSupport.Drain", "drain-support", "not-ready endpoints are added (weight 0) only with drain support"},
+	{"C07", "StrictHost", "strict-host", "the synthetic `/` path of strict-host is added only when it is on"},
+}
+
+func init() {
+	for _, p := range []string{"C18", "C03", "C07"} {
+		p := p
+		addRule(p, &core.Rule{ID: p + ".global-wiring", Floor: 1, Run: func(c *core.Ctx) { globalWiringRule(c, p) },
+			Doc: "UpdateGlobalConfig fills the global option that this property's decision reads from its documented source (configuration key or controller option), unconditionally."})
+	}
+}
+
+func globalWiringRule(c *core.Ctx, prop string) {
+	fn := c.Fn("converters/ingress/annotations", "updater.UpdateGlobalConfig")
+	if fn == nil {
+		return
+	}
+	for _, w := range globalWiring {
+		if w.prop != prop {
+			continue
+		}
+		parts := strings.Split(w.field, ".")
+		last := parts[len(parts)-1]
+		var hit *ssa.Store
+		for _, b := range fn.Blocks {
+			for _, in := range b.Instrs {
+				st, ok := in.(*ssa.Store)
+				if !ok {
+					continue
+				}
+				k := core.Key(st.Addr)
+				if strings.HasSuffix(k, "global."+w.field) {
+					hit = st
+				}
+				_ = last
+			}
+		}
+		if hit == nil {
+			c.Violated("global "+w.field+" is filled", c.Pos(fn.Pos()), "UpdateGlobalConfig no longer stores global."+w.field+" ("+w.why+")")
+			continue
+		}
+		l := sliceLeaves(c.Env, hit.Val, 0)
+		ok := leavesContain(l, w.from) || strings.Contains(core.Key(hit.Val), w.from)
+		c.Check(ok && len(guardsOf(hit)) == 0, "global "+w.field+" is filled from "+w.from, at(c, hit), "", "global."+w.field+" = "+core.Key(hit.Val)+" ["+leavesList(l)+"] ("+w.why+")")
+	}
+}
+
+func init() {
+	doc := "buildHostSSLPassthrough turns a host into ssl-passthrough exactly when the annotation is true and the host has a root path: only then the root path's backend becomes mode tcp and SetSSLPassthrough(true) is called; the http-port backend is recorded only when it exists."
+	addRule("C03", &core.Rule{ID: "C03.passthrough-host", Floor: 3, Run: passthroughHost, Doc: doc})
+	addRule("C07", &core.Rule{ID: "C07.passthrough-host", Floor: 3, Run: passthroughHost, Doc: doc})
+}
+
+func passthroughHost(c *core.Ctx) {
+	fn := c.Fn("converters/ingress/annotations", "updater.buildHostSSLPassthrough")
+	if fn == nil {
+		return
+	}
+	on := func(in ssa.Instruction) bool {
+		return (guardedBy(in, has("ConfigValue).Bool("), true)) && (guardedBy(in, has("builtin:len(", ") == 0)"), false) || guardedBy(in, has("builtin:len(", ") > 0)"), true) || guardedBy(in, has("builtin:len(", ") != 0)"), true))
+	}
+	n := 0
+	for _, s := range core.CallsNamed(fn, false, "(*haproxy/types.Host).SetSSLPassthrough") {
+		n++
+		c.Check(core.IsConstBool(s.Common().Args[1], true) && on(s.Instr), "the host becomes passthrough only with the annotation and a root path", at(c, s.Instr), "", "SetSSLPassthrough("+core.Key(s.Common().Args[1])+") is not on the `annotation true, root path present` branch")
+	}
+	for _, st := range fieldStores(fn, false, "haproxy/types.Backend", "ModeTCP") {
+		n++
+		c.Check(core.IsConstBool(st.Val, true) && on(st), "the root backend becomes mode tcp only for a passthrough host", at(c, st), "", "ModeTCP = "+core.Key(st.Val)+" outside the passthrough branch: an http backend is rendered in tcp mode")
+		// it is the backend of the root path
+		k := core.Key(st.Addr)
+		l := sliceLeaves(c.Env, st.Addr, 0)
+		c.Check(strings.Contains(k, "AcquireBackend(") && leavesContain(l, "FindPath"), "the tcp-mode backend is the root path's backend", at(c, st), "", "ModeTCP is set on "+k+" ["+leavesList(l)+"]")
+	}
+	for _, st := range fieldStores(fn, false, "haproxy/types.Host", "HTTPPassthroughBackend") {
+		n++
+		c.Check(guardedBy(st, has("FindBackend(", " != nil)"), true), "the http port backend is recorded only when it exists", at(c, st), "", "HTTPPassthroughBackend is stored without the nil test")
+	}
+	c.Check(n >= 3, "buildHostSSLPassthrough effects", c.Pos(fn.Pos()), "", fmt.Sprint(n))
+}
